@@ -34,6 +34,7 @@ DISCARD = {
     "stash-drop": [["stash", "push", "-q"], ["stash", "drop", "-q"]],
     "stash-u-drop": [["stash", "push", "-q", "-u"], ["stash", "drop", "-q"]],
     "stash-clear": [["stash", "-q"], ["stash", "clear"]],
+    "stash-then-refused-pop": "pop-refused",
     "away-and-back-force": "away-checkout-f",
     "away-and-back-hard": "away-reset-hard",
 }
@@ -77,7 +78,14 @@ def run_cell(case):
         if pend in ("staged", "initial-staged"):
             s.g("add", "--", F)
         steps = DISCARD[disc]
-        if steps == "away-checkout-f":
+        refused_pop = False
+        if steps == "pop-refused":
+            # the work is stashed, HEAD moves on, the file is edited again by hand: `git stash pop` is refused (local changes would be
+            # overwritten); a failed pop must not bring any attribution back. The follow-up is typed BEFORE the refused pop.
+            s.g("stash", "push", "-q")
+            s.human_write(G, s.read(G) + [s.line("human")]); s.g("add", "--", G); s.g("commit", "-q", "-m", "HEAD moves on")
+            refused_pop = True
+        elif steps == "away-checkout-f":
             s.w.git("branch", "away", "HEAD~1", plain=True, tick=False)
             s.g("checkout", "-q", "-f", "away"); s.g("checkout", "-q", "main")
         elif steps == "away-reset-hard":
@@ -96,6 +104,13 @@ def run_cell(case):
             s.ai_write("S3", F, [s.line("S3"), s.line("S3"), s.line("S3")] + f0)
         else:
             s.human_write(F, [s.line("human"), s.line("human"), s.line("human")] + f0, ckpt=(follow == "person"))
+        if refused_pop:
+            p = s.g("stash", "pop", "-q")
+            if p.rc == 0:
+                r = s.finish()
+                r.update(nontrivial=False, sig=None, cell=cell, applicable=False)
+                return r
+            s.g("stash", "drop", "-q")
         s.commit_all("after the discard")
         s.check_notes("matrix " + cell)
         s.check_blame_tip("matrix " + cell, complete=False, rule="C03")
